@@ -333,11 +333,11 @@ def r15_3(prog, rep):
 
 def run(prog, rep, tier, snap):
     rep.rule("R15.1", "exhaustive, agreeing dispatch over the 11 scales in 4 switches; decoding; spelling", 50)
-    r15_1(prog, rep)
+    rep.call(r15_1, prog, rep)
     rep.rule("R15.2", "out-of-coverage sentinels are tested before use", 4)
-    r15_2(prog, rep)
+    rep.call(r15_2, prog, rep)
     rep.rule("R15.3", "month-start tables strictly increasing", 2)
-    r15_3(prog, rep)
+    rep.call(r15_3, prog, rep)
     rep.rule("R15.4", "month-transition table accesses are dominated by index < table length", 5)
-    r15_4(prog, rep)
+    rep.call(r15_4, prog, rep)
 READY = True
